@@ -391,7 +391,9 @@ add("RT_repr_iter1", P.RegressionTreeBasedAL,
     lambda c: dict(reg=reg_tree(c.get("ml", NAN))), kind="reg", selection="rt", model_arg="reg")
 add("US_margin_cost", P.UncertaintySampling,
     lambda s, ml=NAN: P.UncertaintySampling(method="margin_sampling", cost_matrix=_CM(), missing_label=ml, random_state=s),
-    lambda c: dict(clf=_ctx_clf(c, "lr")), arbitrary_index_ok=True, independent=True, perm=True, model_arg="clf",
+    # (no permutation relation: scikit-learn's lbfgs solver stops at a point that depends on the row order, up to 1e-3
+    # relative on badly conditioned data - the relation is decided by the entries around exact models)
+    lambda c: dict(clf=_ctx_clf(c, "lr")), arbitrary_index_ok=True, independent=True, perm=False, model_arg="clf",
     domain=lambda c: None if (c.n_classes_obs or 0) >= 2 else "logistic regression needs two observed classes")
 
 # ---- precomputed kernel: X is the caller's (n, n) kernel matrix, a float64 array the strategy must not write to
